@@ -20,7 +20,12 @@ package dir
 //@ type Dir
 //@   invariant [layout] pclean(self.target) && pclean(self.base) && pchild(self.target, self.base) && self.targetDir == pbase(self.target) && psimple(self.targetDir)
 //@   invariant [log] self.log != nil
-//@   invariant [prev] self.prev != nil ==> (pchild(*self.prev, self.base) && pclean(*self.prev) && fsExists[self.target] && fsIsLink[self.target] && fsLink[self.target] == *self.prev)
+// [prev]: the version directory this Dir installed last (pure path facts: they also hold after a failed Write).
+// [live]: ... and the target still points to it. Holds after every successful Write; lost when a Write fails
+// after its Rename (RemoveAll of the previous version failed): the target then points to the new directory
+// while d.prev was not advanced. Write does not need [live].
+//@   invariant [prev] self.prev != nil ==> (pchild(*self.prev, self.base) && pclean(*self.prev) && *self.prev != self.target)
+//@   invariant [live] self.prev != nil ==> (fsExists[self.target] && fsIsLink[self.target] && fsLink[self.target] == *self.prev)
 
 //@ func New
 //@   tags C18 C07
@@ -32,11 +37,11 @@ package dir
 //@   tags C18 C07
 //@   ghost visited [string]bool
 //@   ghost tnew string
-//@   requires d != nil && inv(d)
+//@   requires d != nil && invexcept(d, "live")
 //@   requires forall k string :: haskey(files, k) ==> psimple(k)
 //@   requires fsCI(fsExists, fsIsLink, fsLink, fsIsDir, fsComplete, d.target, d.base)
 //@   modifies fsExists, fsIsLink, fsLink, fsIsDir, fsSrc, fsComplete, d.prev
-//@   ensures invonly(d, "layout", "log")
+//@   ensures invexcept(d, "live")
 //@   ensures [C18.post.inv] result == nil ==> inv(d)
 //@   ensures [C18.post.ci] fsCI(fsExists, fsIsLink, fsLink, fsIsDir, fsComplete, d.target, d.base)
 //@   ensures [C18.post.target] result == nil ==> (d.prev != nil && fsExists[d.target] && fsIsLink[d.target] && fsLink[d.target] == *d.prev && fsIsDir[*d.prev] && fsComplete[*d.prev])
@@ -48,10 +53,11 @@ package dir
 //
 // The version name: "<UnixNano>-<targetDir>" is a single path component when targetDir is one (fact about
 // fmt.Sprintf with this format), and it is fresh: no entry of that name exists, and it is neither the target
-// nor its ".new" companion (assumption about the clock, DESIGN.md C18).
+// nor its ".new" companion, nor the version this Dir installed before (assumption about the clock: UnixNano
+// strictly increases between two Writes of one process and differs from every existing stamp, DESIGN.md C18).
 //@   at call Sprintf#0 ghost visited = noKeys()
 //@   at call Sprintf#0 assume psimple(d.targetDir) ==> psimple(res0)
-//@   at call Join#0 assume !fsExists[res0] && res0 != d.target && !isDotNew(d.target, res0)
+//@   at call Join#0 assume !fsExists[res0] && res0 != d.target && !isDotNew(d.target, res0) && (d.prev != nil ==> res0 != *d.prev)
 //
 // Every crash point: after each file-system call the crash invariant holds, and crash-reachability is closed.
 //@   at call MkdirAll assert [C18.crash.mkdir] fsCI(fsExists, fsIsLink, fsLink, fsIsDir, fsComplete, d.target, d.base)
